@@ -381,6 +381,46 @@ def lifecycle_faults() -> list:
                 k, v = runc(loop, t.disconnect())
                 if k != "ok":
                     bad("reconnect-disconnect", f"disconnect #{round_} gave {k} {v!r}")
+            # a read that is already waiting when the transport is disconnected and connected again gets the next message
+            FakeClient.plan = {}
+            FakeClient.instances.clear()
+            t = MQTTClient("b", 1883, in_prefix="w-out", out_prefix="w-in")
+            runc(loop, t.connect())
+            pending = loop.create_task(t.read())
+            loop.run_ready()
+            runc(loop, t.disconnect())
+            k, v = runc(loop, t.connect())
+            if k == "ok" and FakeClient.instances[-1].deliver("w-out/1/3/1/0/2", b"on"):
+                loop.run_ready()
+                if not pending.done():
+                    bad("pending-read-deaf-after-reconnect", "a read that was waiting across disconnect + connect never received the next message")
+                    pending.cancel()
+                    loop.run_ready()
+                elif pending.exception() is not None or pending.result().rstrip("\n") != "1;3;1;0;2;on":
+                    bad("pending-read-after-reconnect", f"the waiting read gave {pending!r}")
+            runc(loop, t.disconnect())
+            # a publish that fails with a broker error, later the broker connection breaks while receiving:
+            # the reader must still be told
+            FakeClient.plan = {}
+            FakeClient.instances.clear()
+            t = MQTTClient("b", 1883, in_prefix="f-out", out_prefix="f-in")
+            runc(loop, t.connect())
+            fake = FakeClient.instances[-1]
+            fake.fail["publish"] = MqttError("puback timeout")
+            k, v = runc(loop, t.write("1;3;1;1;2;x\n"))
+            if not (k == "raise" and isinstance(v, TransportError)):
+                bad("publish-failure", f"a failing publish gave {k} {v!r}")
+            fake.fail.pop("publish", None)
+            runc(loop, t.write("1;3;1;0;2;y\n"))
+            fake.deliver("f-out/1/3/1/0/2", b"on")
+            loop.run_ready()
+            k, v = runc(loop, t.read())
+            fake.broker_error()
+            loop.run_ready()
+            k, v = runc(loop, t.read())
+            if not (k == "raise" and isinstance(v, TransportError)):
+                bad("receive-error-after-publish-error", f"after an earlier failed publish, a broker error while receiving gave the reader {k} {v!r}")
+            runc(loop, t.disconnect())
             FakeClient.plan = {"publish": MqttError("boom")}
             t = MQTTClient("b")
             runc(loop, t.connect())
